@@ -14,7 +14,8 @@ axioms are checked exhaustively:
               parent lists (closure recomputed by the checker from the AST); directional vs
               directional is the strict product order; directional vs the isotropic chain
               L2/H1/H2/H3/HInf and vs HDiv/HCurl agrees with the orders.
-  C25-member  `element in S` <=> element.sobolev_space <= S.
+  C25-member  `element in S` <=> element.sobolev_space <= S, for declared and directional spaces on either side
+              (False where the order itself is undecided).
 """
 
 from __future__ import annotations
@@ -186,26 +187,31 @@ def run(ctx) -> Report:
                 want = all(x >= 1 for x in oa)
                 got = cmp("<=", da, nm)
                 (rep.ok("C25-truth/hdiv", where, f"{da} <= {nm} is {want}") if got is want else rep.violation("C25-truth/hdiv", where, f"{da} <= {nm}", f"{da} <= {nm} evaluates to {got}; expected {want} (all orders >= 1)"))
-    # membership
-    for s in named:
-        el = Obj("element", sobolev_space=named[s])
-        for S in named:
+    # membership: over the whole universe (declared and directional spaces on either side)
+    for s in names:
+        el = Obj("element", sobolev_space=universe[s])
+        for S in names:
+            want = cmp("<=", s, S)
             try:
-                got = ip.contains(el, named[S], None)
+                got = ip.contains(el, universe[S], None)
             except LiftRaise as e:
                 rep.violation("C25-member", where, f"element({s}) in {S}", f"raises {e.what}")
                 continue
-            want = cmp("<=", s, S)
+            if not isinstance(want, bool):
+                # inclusion unknown to the order (NotImplementedError): membership may only answer False
+                if got is not False:
+                    rep.violation("C25-member", where, f"element({s}) in {S}", f"{s} <= {S} is undecided by the order ({want[1][:60]}) but an element of {s} is reported inside {S}")
+                continue
             (rep.ok("C25-member", where, f"element in {s}: `in {S}` is {got}") if got is want else rep.violation("C25-member", where, f"element({s}) in {S}", f"an element of {s} is reported {'inside' if got else 'outside'} {S} but {s} <= {S} is {want}"))
         try:
-            ip.contains(named[s], named[s], None)
+            ip.contains(universe[s], universe[s], None)
             rep.violation("C25-member", where, f"{s} in {s}", "testing a SobolevSpace for membership in a SobolevSpace does not raise")
         except LiftRaise:
             pass
     rep.exhaustive = True
     rep.require_min("C25-axioms", 400)
     rep.require_min("C25-truth", 300)
-    rep.require_min("C25-member", 100)
+    rep.require_min("C25-member", 1000)
     rep.counts.update(spaces_declared=len(named), directional_spaces=len(dirs), ordered_pairs_evaluated=n_pairs, transitivity_chains=ntr)
     rep.explanation = (
         f"The six comparison operators were evaluated from source (constant propagation through the lifter's object model, "
